@@ -289,6 +289,8 @@ fn main() {
             let silent = v["silent"].as_bool().unwrap();
             let protos: &[&str] = if reqs.len() == 1 { &["h1", "h2"] } else { &["h2"] };
             for proto in protos {
+                // an origin-form request without Host exists on HTTP/1.1 only (HTTP/2 and HTTP/3 have :authority)
+                if *proto != "h1" && reqs.iter().any(|r| r["kind"] == "getNoHost") { continue; }
                 // non-UTF-8 header bytes >= 0x80 are fine on both protocols
                 let opts = CoreOpts {
                     clients: if authn { vec![("alice".into(), "S3cretAlicePw".into()), ("bob".into(), "S3cretBobPw1".into())] } else { vec![] },
